@@ -267,6 +267,10 @@ VALUE_FORMS = [
     ('assign x 0 print not x println not 5', 'True False\n'),
     ('define f with a begin print a end f not 0', 'True'),
     ('repeat 2 with h cycle -90 begin print h end', '-90 90.0'),
+    # whole numbers written with leading zeros are whole numbers
+    ('print 007 print 00 println -012', '7 0 -12\n'),
+    ('printf "{:d}|{:>3d}" 010 007', '10|  7'),
+    ('assign n 0042 print n print {n + 1}', '42 43'),
     # a named field may name a defined constant; a parameter of the same name hides it
     ('define c 5 printf "{c}"', '5'),
     ('define s "x" define f begin printf "{s}|{}" 1 end f', 'x|1'),
